@@ -141,6 +141,12 @@ func c15Gen(rt *rapid.T) wProg {
 			if gPct(rt, 60) {
 				p.Ops = append(p.Ops, wOp{K: "sub", S: b, T: tb})
 			}
+			if gPct(rt, 12) {
+				// the store fails while the acceptance is being published: the call is not accepted; the
+				// callee's offer is then nobody's business, a second acceptance goes through
+				p.Ops = append(p.Ops, wOp{K: "fault", N: gInt(rt, 1, 3, "fka")}, wOp{K: "note", S: b, T: tb, A: "call", B: "accept", M: 1},
+					wOp{K: "note", S: b, T: tb, A: "call", B: gPick(rt, []string{"offer", "ice-candidate"}, "early"), M: 1, H: map[string]any{"sdp": "early"}})
+			}
 			p.Ops = append(p.Ops, wOp{K: "note", S: b, T: tb, A: "call", B: "accept", M: 1})
 			maybeNoise(e)
 			for k, nx := 0, gInt(rt, 0, 4, "nx"); k < nx; k++ {
